@@ -6,7 +6,7 @@ TIERS = {'quick': {'runs': 16000, 'group': 250}, 'thorough': {'runs': 400000, 'g
 RULE = ('Each run is one of: doc (grammar document, a chunking, an input form and 0-3 reader faults EOF/LOSS/DUP/SWAP/'
         'FLIP/JUNK, half placed at in-flight sites), deep (nesting to depth 40, env/command alternation, nested math and '
         'bracket arguments, half truncated), alphabet (0-6 symbols over the token-kind alphabet incl. one representative '
-        'per kind of Unicode code point), repeat (a 1-3 symbol unit repeated 5-40 times), tail (every 8th run; the run '
+        'per kind of Unicode code point), repeat (a 1-3 symbol unit repeated 5-40 times; in a third of the runs two of 17 openers alternating to nesting depth 24-40, half of those closed into a valid nest; the corpus also holds the minimal inputs of the repaired findings), tail (every 8th run; the run '
         'index walks through all ordered pairs, then triples, of alphabet symbols placed at the very end of the input '
         'after a context with a construct in flight), corpus, sizing sweep, wellformed (fault-free restricted-grammar '
         'document: no diagnostic allowed) and cause (restricted-grammar document with exactly one inserted construct '
